@@ -78,23 +78,27 @@ def _named(nkey):
     return re.sub(r"(::\{closure#\d+\})+$", "", nkey)
 
 
-def owner_name(fn, depth=4):
-    """Name under which a panic site is filed: the named function containing it; and when that function is a private helper
-    with a single calling function (and no rule names it), the caller - transitively.  Extracting a step into a helper, or
-    moving it into / out of a closure, keeps the site's key."""
+def owner_name(fn, depth=4, use_atoms=True):
+    """Name under which a panic site / unsafe block is filed: the named function containing it; and when that function is a
+    private helper all of whose callers resolve to one and the same owner (and no rule names it), that owner - transitively.
+    Extracting a step into a helper, renaming the helper, or moving the step into / out of a closure keeps the key."""
     facts = fn.facts
-    name = _named(fn.nkey)
     from core import atoms
-    for _ in range(depth):
+
+    def resolve(name, d, seen):
+        if d <= 0 or name in seen:
+            return name
         cands = facts.by_norm.get(name) or []
         g = cands[0] if len(cands) == 1 else None
-        if g is None or g.d.get("impl_trait") or g.d.get("reachable") or name in atoms():
-            break
+        if g is None or g.d.get("impl_trait") or g.d.get("reachable") or (use_atoms and name in atoms()):
+            return name
         callers = {_named(c.fn.nkey) for c in facts.call_sites_of(name)} - {name}
-        if len(callers) != 1:
-            break
-        name = callers.pop()
-    return name
+        if not callers:
+            return name
+        owners = {resolve(c, d - 1, seen | {name}) for c in callers}
+        return owners.pop() if len(owners) == 1 else name
+
+    return resolve(_named(fn.nkey), depth, frozenset())
 
 
 class Site:
